@@ -460,13 +460,14 @@ func c16APICase(rec *vlib.Rec, idx int) {
 	}()
 
 	pool := c16RecPool(r)
+	ar := vlib.CaseRand("c16addr", idx)
 	ncache := 1 + r.IntN(2)
 	for i := 0; i < ncache && !a.broken; i++ {
-		la := c16Pick(r, []string{"127.0.0.1:0", "127.0.0.2:0", "[::1]:0"})
+		la := c16Pick(r, []string{"", "", "v6"})
 		if i == 1 && r.IntN(2) == 0 {
-			la = net.JoinHostPort(a.caches[0].addr, "0") // same address, other port
+			la = a.caches[0].addr // same address, other port
 		}
-		ln, err := net.Listen("tcp", la)
+		ln, err := c16Listen(ar, la)
 		if err != nil {
 			a.inconclusive("listen: " + err.Error())
 			return
@@ -550,6 +551,19 @@ func c16APICase(rec *vlib.Rec, idx int) {
 					held[c.host] = append(held[c.host], x)
 				}
 				ops = append(ops, c16Op{true, x})
+				// withdrawal of a record the cache does not hold and that shares all but one field
+				// with the one just announced (still buffered): must change nothing
+				if y := c16NearMiss(r, x); r.IntN(2) == 0 && !touched[y] {
+					unknown := true
+					for _, z := range held[c.host] {
+						unknown = unknown && y != z
+					}
+					if unknown {
+						touched[y] = true
+						ops = append(ops, c16Op{false, y})
+						rec.Count("api_near_miss_withdrawals", 1)
+					}
+				}
 			}
 		}
 		a.send(c, ops)
